@@ -30,6 +30,8 @@ type vFaultStore struct {
 	failOp func(op, key string) error
 	trace  []string // "op key" for each intercepted operation (when tracing)
 	tracing bool
+	readFaults bool
+	onMark     func(mark string) // trace-only markers (never faulted): end of a WriteUpdateWithXattrs call
 
 	released []uint64 // sequences published as unused through AddRaw of _sync:unusedSeq(s) documents
 }
@@ -58,7 +60,14 @@ func (f *vFaultStore) WriteUpdateWithXattrs(ctx context.Context, k string, xattr
 	nested := f.depth > 0
 	f.mu.Unlock()
 	if hook == nil || nested {
-		return f.DataStore.WriteUpdateWithXattrs(ctx, k, xattrKeys, exp, previous, opts, callback)
+		cas, err := f.DataStore.WriteUpdateWithXattrs(ctx, k, xattrKeys, exp, previous, opts, callback)
+		f.mu.Lock()
+		om := f.onMark
+		f.mu.Unlock()
+		if om != nil {
+			om("~end " + k)
+		}
+		return cas, err
 	}
 	attempt := 0
 	wrapper := func(current []byte, xattrs map[string][]byte, cas uint64) (sgbucket.UpdatedDoc, error) {
@@ -198,4 +207,71 @@ func (f *vFaultStore) stopTrace() []string {
 	t := f.trace
 	f.trace = nil
 	return t
+}
+
+// ---- reads (intercepted only while readFaults is set: the C05 harness does not want them in its traces) ----
+func (f *vFaultStore) noteRead(op, key string) error {
+	f.mu.Lock()
+	on := f.readFaults
+	f.mu.Unlock()
+	if !on {
+		return nil
+	}
+	return f.note(op, key)
+}
+func (f *vFaultStore) Get(ctx context.Context, k string, rv interface{}) (uint64, error) {
+	if err := f.noteRead("Get", k); err != nil {
+		return 0, err
+	}
+	return f.DataStore.Get(ctx, k, rv)
+}
+func (f *vFaultStore) GetRaw(ctx context.Context, k string) ([]byte, uint64, error) {
+	if err := f.noteRead("GetRaw", k); err != nil {
+		return nil, 0, err
+	}
+	return f.DataStore.GetRaw(ctx, k)
+}
+func (f *vFaultStore) GetAndTouchRaw(ctx context.Context, k string, exp uint32) ([]byte, uint64, error) {
+	if err := f.noteRead("GetAndTouchRaw", k); err != nil {
+		return nil, 0, err
+	}
+	return f.DataStore.GetAndTouchRaw(ctx, k, exp)
+}
+func (f *vFaultStore) GetXattrs(ctx context.Context, k string, xattrKeys []string) (map[string][]byte, uint64, error) {
+	if err := f.noteRead("GetXattrs", k); err != nil {
+		return nil, 0, err
+	}
+	return f.DataStore.GetXattrs(ctx, k, xattrKeys)
+}
+func (f *vFaultStore) GetWithXattrs(ctx context.Context, k string, xattrKeys []string) ([]byte, map[string][]byte, uint64, error) {
+	if err := f.noteRead("GetWithXattrs", k); err != nil {
+		return nil, nil, 0, err
+	}
+	return f.DataStore.GetWithXattrs(ctx, k, xattrKeys)
+}
+
+// ---- pass-through of the optional interfaces the code type-asserts for ----
+func (f *vFaultStore) GetUnderlyingDataStore() base.DataStore { return f.DataStore }
+
+func (f *vFaultStore) views() sgbucket.ViewStore {
+	vs, _ := base.GetBaseDataStore(f.DataStore).(sgbucket.ViewStore)
+	return vs
+}
+func (f *vFaultStore) GetDDoc(ctx context.Context, docname string) (sgbucket.DesignDoc, error) {
+	return f.views().GetDDoc(ctx, docname)
+}
+func (f *vFaultStore) GetDDocs(ctx context.Context) (map[string]sgbucket.DesignDoc, error) {
+	return f.views().GetDDocs(ctx)
+}
+func (f *vFaultStore) PutDDoc(ctx context.Context, docname string, value *sgbucket.DesignDoc) error {
+	return f.views().PutDDoc(ctx, docname, value)
+}
+func (f *vFaultStore) DeleteDDoc(ctx context.Context, docname string) error {
+	return f.views().DeleteDDoc(ctx, docname)
+}
+func (f *vFaultStore) View(ctx context.Context, ddoc, name string, params map[string]interface{}) (sgbucket.ViewResult, error) {
+	return f.views().View(ctx, ddoc, name, params)
+}
+func (f *vFaultStore) ViewQuery(ctx context.Context, ddoc, name string, params map[string]interface{}) (sgbucket.QueryResultIterator, error) {
+	return f.views().ViewQuery(ctx, ddoc, name, params)
 }
